@@ -1,19 +1,26 @@
 """
 C23 harness: drive the real ioflo Logger (rotation: keep / cyclePeriod / fileSize, flushPeriod, reuse) with
-one `streak` Log whose queue receives the record ids 0,1,2,... ; read the retained files back.
+one or several Logs of different rules; every log's records carry that log's own ids 0,1,2,... ; read the
+retained files of every log back.
 
 case = {"keep": int, "cycleP": ticks, "fsize": bytes, "flushP": ticks (>= 8), "reuse": bool,
+        "logs": ["streak"] | e.g. ["once", "always", "update"]   (distinct rules; default ["streak"])
         "procs": [ [op...], ... ]      one op list per Logger "process" (fresh House/Logger/Log objects on the
                                        same prefix; only the last one may crash)
         "crash": None | k              the last process dies (os._exit) just before its k-th op
         "crash_rename": None | n       ... or inside its n-th os.rename call (before / after it: "when")
         "big": bool                    long record payloads (forces Python's buffer to spill)}
-op   = ["tick", d] | ["start", n] | ["run", n] | ["stop", n]      n = records queued before the control
+op   = ["tick", d] | [ctl, n, wants]   ctl = start|run|stop; n = elements queued on a streak log before the
+                                       control; wants[j] = update the share of update/change log j first
 time unit = 1/8 s.
-result = {"files": [f_keep, ..., f_1, f_main]  (oldest first; None = missing;
-                    else [item...], item = "H" | ["R", id, size] | ["P", text] (partial trailing line)),
-          "sizes": [[size per record] per control op of the last proc...], "hsz": int,
-          "spy": {"fsync": [nwritten...], "cycles": [[size_arg, main_size_before, renamed?], ...]}}
+What each log writes per control is PLANNED here without ioflo (plan()): streak n records; always 1; once 1 at
+the first control of a process; update/change 1 at the first control of a process and whenever their share is
+updated (update: only if a tick passed since the previous control -- C22's known finding is avoided; change:
+not at a restart START, where prepare() re-bases lasts).  The files are parsed, so a wrong plan shows up.
+result = {"files": [per log: [f_keep, ..., f_1, f_main]]  (oldest first; None = missing; else [item...],
+                    item = "H" | ["R", id, size] | ["P", text] (partial / foreign line)),
+          "sizes": [per proc: [per control: [per log: [size...]]]], "hsz": int, "nwritten": [per log],
+          "spy": {"flushed": [per log], "rot_at": [per log: [...]], "cycles": [[log, size_arg, size_before, renamed]]}}
 """
 import collections.abc  # noqa: F401
 import glob
@@ -23,12 +30,91 @@ import shutil
 import sys
 
 DT = 0.125
-HDR = "text\tStreak\tlg\n_time\tq\n"
+NAMES = {"streak": ("Streak", "ls"), "always": ("Always", "la"), "update": ("Update", "lu"),
+         "change": ("Change", "lc"), "once": ("Once", "lo00")}
+
+
+def hdr(rule):
+    return "text\t%s\t%s\n_time\tq\n" % NAMES[rule]
+
+
+HSZ = len(hdr("streak"))
+assert all(len(hdr(r)) == HSZ for r in NAMES)
+
+
+def payload(rid, big):
+    return ("%d" % rid) if not big else ("%d" % rid).rjust(1500, "0")
 
 
 def rec_line(stamp, rid, big):
-    pay = ("%d" % rid) if not big else ("%d" % rid).rjust(1500, "0")
-    return "%s\t%s\n" % (stamp, pay)
+    return "%s\t%s\n" % (stamp, payload(rid, big))
+
+
+def rules_of(case):
+    return case.get("logs") or ["streak"]
+
+
+def plan(case):
+    """per proc, per op: None (tick) | {"ctl", "acts": [per log], "ids": [per log], "sizes": [per log]}"""
+    rules = rules_of(case)
+    big = case.get("big", False)
+    cur = [0] * len(rules)
+    t = 0
+    out = []
+    for ops in case["procs"]:
+        po = []
+        firstctl = True
+        ticked = True
+        for op in ops:
+            if op[0] == "tick":
+                t += op[1]
+                ticked = True
+                po.append(None)
+                continue
+            wants = op[2] if len(op) > 2 else [True] * len(rules)
+            acts, ids = [], []
+            for j, r in enumerate(rules):
+                w = wants[j] if j < len(wants) else True
+                if r == "streak":
+                    n = list(range(cur[j], cur[j] + op[1]))
+                    acts.append(("append", n))
+                elif r == "always":
+                    n = [cur[j]]
+                    acts.append(("set", cur[j]))
+                elif r == "once":
+                    n = [cur[j]] if firstctl else []
+                    acts.append(("set", cur[j]) if firstctl else None)
+                elif r == "update":
+                    if firstctl:
+                        n = [cur[j]]
+                        acts.append(("set", cur[j]))
+                    elif w and ticked:
+                        n = [cur[j]]
+                        acts.append(("update", cur[j]))
+                    else:
+                        n = []
+                        acts.append(None)
+                elif r == "change":
+                    if firstctl or (w and op[0] != "start"):
+                        n = [cur[j]]
+                        acts.append(("set", cur[j]))
+                    else:
+                        n = []
+                        acts.append(None)
+                else:
+                    raise ValueError(r)
+                ids.append(n)
+                cur[j] += len(n)
+            po.append({"ctl": op[0], "acts": acts, "ids": ids,
+                       "sizes": [[len(rec_line(t * DT, i, big)) for i in n] for n in ids]})
+            firstctl = False
+            ticked = False
+        out.append(po)
+    return out
+
+
+def sizes_of(pl):
+    return [[o["sizes"] for o in po if o is not None] for po in pl]
 
 
 def _mk():
@@ -43,74 +129,113 @@ def _mk():
 
 
 class Spy(object):
-    def __init__(self):
-        self.nwritten = 0
-        self.fsync = []
+    def __init__(self, nlogs):
+        self.nw = [0] * nlogs          # records written per log
+        self.flushed = [0] * nlogs     # ... at that log's most recent COMPLETED flush (Log.flush / Logger.flush)
+        self.rot_at = [[] for _ in range(nlogs)]   # stream position at every rename of that log's main file
         self.cycles = []
-        self.rot_at = []      # stream position (records written) at every rename of the main file
         self.renames = 0
         self.crash_rename = None
         self.when = "before"
         self.side = None
+        self.index = {}                # Log.name -> index
 
 
-def run_proc(case, ops, prefix, t0, next_id, spy, crash_at=None):
-    """one Logger 'process'.  returns (tick, next_id, sizes)"""
+def run_proc(case, ops, po, prefix, t0, spy, crash_at=None):
     from ioflo.base import logging, globaling
+    rules = rules_of(case)
     house = _mk()
     store = house.store
     store.changeStamp(t0 * DT)
     logger = logging.Logger(name="L", store=store, schedule=globaling.ACTIVE, prefix=prefix,
                             flushPeriod=case["flushP"] * DT, keep=case["keep"],
                             cyclePeriod=case["cycleP"] * DT, fileSize=case["fsize"], reuse=case["reuse"])
-    q = store.create("c23.q").update(value=[])
-    log = logging.Log(name="lg", store=store, kind="text", baseFilename="", rule=globaling.STREAK)
-    log.addLoggee(tag="q", loggee="c23.q")
-    logger.addLog(log)
-    logger.resolve()
     big = case.get("big", False)
-    sizes = []
+    shares = []
+    for j, r in enumerate(rules):
+        sh = store.create("c23.v%d" % j)
+        sh.change(value=[] if r == "streak" else "-")
+        shares.append(sh)
+        log = logging.Log(name=NAMES[r][1], store=store, kind="text", baseFilename="",
+                          rule=globaling.LogRuleValues[NAMES[r][0]])
+        log.addLoggee(tag="q", loggee="c23.v%d" % j)
+        logger.addLog(log)
+        spy.index[log.name] = j
+    logger.resolve()
     for k, op in enumerate(ops):
         if crash_at is not None and k == crash_at:
             os._exit(0)
         if op[0] == "tick":
             store.advanceStamp(op[1] * DT)
             continue
-        szs = []
-        for _ in range(op[1]):
-            q.value.append(("%d" % next_id) if not big else ("%d" % next_id).rjust(1500, "0"))
-            szs.append(len(rec_line(store.stamp, next_id, big)))
-            next_id += 1
-        spy.nwritten = next_id
-        sizes.append(szs)
+        p = po[k]
+        for j, act in enumerate(p["acts"]):
+            if act is None:
+                continue
+            if act[0] == "append":
+                for i in act[1]:
+                    shares[j].value.append(payload(i, big))
+            elif act[0] == "set":
+                shares[j].change(value=payload(act[1], big))
+            else:
+                shares[j].update(value=payload(act[1], big))
+            spy.nw[j] += len(p["ids"][j])
         logger.runner.send({"start": globaling.START, "run": globaling.RUN, "stop": globaling.STOP}[op[0]])
     if crash_at is not None and crash_at >= len(ops):
         os._exit(0)
     logger.close()
-    return int(round(store.stamp / DT)), next_id, sizes, logger.path
+    return int(round(store.stamp / DT))
 
 
 def install_spies(spy):
     from ioflo.base import logging
-    real_fsync, real_rename, real_cycle = os.fsync, os.rename, logging.Log.cycle
+    real_rename, real_cycle = os.rename, logging.Log.cycle
+    real_lflush, real_gflush = logging.Log.flush, logging.Logger.flush
 
-    def fsync(fd):
-        real_fsync(fd)
-        spy.fsync.append(spy.nwritten)
+    def note(line):
         if spy.side:
-            os.write(spy.side, b"F %d\n" % spy.nwritten)
+            os.write(spy.side, line.encode() + b"\n")
+
+    def lflush(self):
+        opened = bool(self.file and not self.file.closed)
+        real_lflush(self)
+        j = spy.index.get(self.name)
+        if opened and j is not None:
+            spy.flushed[j] = spy.nw[j]
+            note("L %d %d" % (j, spy.nw[j]))
+
+    def gflush(self):
+        real_gflush(self)
+        # a completed Logger.flush(): the statement promises every log's records so far are in its files
+        for log in self.logs:
+            j = spy.index.get(log.name)
+            if j is not None and log.file and not log.file.closed:
+                spy.flushed[j] = spy.nw[j]
+                note("L %d %d" % (j, spy.nw[j]))
+
+    def which(path):
+        base = os.path.basename(path)
+        for nm, j in spy.index.items():
+            if base == nm + ".txt":
+                return j, True
+            if base.startswith(nm) and base[len(nm):len(nm) + 2].isdigit() and base.endswith(".txt") \
+                    and len(base) == len(nm) + 6:
+                return j, False
+        return None, False
 
     def rename(a, b):
         spy.renames += 1
         if spy.crash_rename is not None and spy.renames == spy.crash_rename and spy.when == "before":
             os._exit(0)
         real_rename(a, b)
-        if not a[-6:-4].isdigit():
-            if spy.cycles:
-                spy.cycles[-1][2] = True
-            spy.rot_at.append(spy.nwritten)
-            if spy.side:
-                os.write(spy.side, b"R %d\n" % spy.nwritten)
+        j, ismain = which(a)
+        if ismain:
+            for c in reversed(spy.cycles):
+                if c[0] == j:
+                    c[3] = True
+                    break
+            spy.rot_at[j].append(spy.nw[j])
+            note("R %d %d" % (j, spy.nw[j]))
         if spy.crash_rename is not None and spy.renames == spy.crash_rename and spy.when == "after":
             os._exit(0)
 
@@ -120,21 +245,26 @@ def install_spies(spy):
             before = os.path.getsize(self.path) if self.paths else None
         except Exception:
             before = None
-        spy.cycles.append([size, before, False])
+        spy.cycles.append([spy.index.get(self.name), size, before, False])
         return real_cycle(self, size=size)
 
-    os.fsync, os.rename, logging.Log.cycle = fsync, rename, cycle
-    return lambda: (setattr(os, "fsync", real_fsync), setattr(os, "rename", real_rename),
-                    setattr(logging.Log, "cycle", real_cycle))
+    os.rename, logging.Log.cycle = rename, cycle
+    logging.Log.flush, logging.Logger.flush = lflush, gflush
+
+    def undo():
+        os.rename, logging.Log.cycle = real_rename, real_cycle
+        logging.Log.flush, logging.Logger.flush = real_lflush, real_gflush
+    return undo
 
 
-def parse(text, big):
+def parse(text, rule):
     items = []
     pos = 0
+    h = hdr(rule)
     while pos < len(text):
-        if text.startswith(HDR, pos):
+        if text.startswith(h, pos):
             items.append("H")
-            pos += len(HDR)
+            pos += len(h)
             continue
         nl = text.find("\n", pos)
         if nl < 0:
@@ -155,20 +285,20 @@ def parse(text, big):
 
 
 def read_files(case, prefix):
+    rules = rules_of(case)
     dirs = sorted(glob.glob(os.path.join(prefix, "HouseC23", "*")))
-    files = [None] * (case["keep"] + 1)
-    if not dirs:
-        return files
-    d = dirs[-1]
-    names = ["lg%02d.txt" % k for k in range(case["keep"], 0, -1)] + ["lg.txt"]
     out = []
-    for nm in names:
-        p = os.path.join(d, nm)
-        if not os.path.exists(p):
-            out.append(None)
-        else:
-            with open(p) as f:
-                out.append(parse(f.read(), case.get("big", False)))
+    for r in rules:
+        nm = NAMES[r][1]
+        fl = []
+        for name in ["%s%02d.txt" % (nm, k) for k in range(case["keep"], 0, -1)] + [nm + ".txt"]:
+            p = os.path.join(dirs[-1], name) if dirs else None
+            if p is None or not os.path.exists(p):
+                fl.append(None)
+            else:
+                with open(p) as f:
+                    fl.append(parse(f.read(), r))
+        out.append(fl)
     return out
 
 
@@ -177,11 +307,12 @@ def run_case(case, workdir, child=False):
     prefix = os.path.join(workdir, "lg")
     if not child:
         shutil.rmtree(prefix, ignore_errors=True)
-    spy = Spy()
+    rules = rules_of(case)
+    spy = Spy(len(rules))
     undo = install_spies(spy)
+    pl = plan(case)
     try:
-        t, nid = 0, 0
-        allsizes = []
+        t = 0
         procs = case["procs"]
         for i, ops in enumerate(procs):
             last = i == len(procs) - 1
@@ -189,33 +320,13 @@ def run_case(case, workdir, child=False):
                 spy.crash_rename = case.get("crash_rename")
                 spy.when = case.get("when", "before")
                 spy.side = os.open(os.path.join(workdir, "side.txt"), os.O_WRONLY | os.O_CREAT | os.O_TRUNC)
-                os.write(spy.side, b"F %d\n" % nid)
-            t, nid, sizes, _ = run_proc(case, ops, prefix, t, nid, spy,
-                                        crash_at=case.get("crash") if (last and child) else None)
-            allsizes.append(sizes)
+                for j in range(len(rules)):
+                    os.write(spy.side, b"L %d %d\n" % (j, spy.nw[j]))
+            t = run_proc(case, ops, pl[i], prefix, t, spy, crash_at=case.get("crash") if (last and child) else None)
     finally:
         undo()
-    res = {"files": read_files(case, prefix), "sizes": allsizes, "hsz": len(HDR), "nwritten": nid,
-           "spy": {"fsync": spy.fsync, "cycles": spy.cycles, "rot_at": spy.rot_at}}
-    return res
-
-
-def predicted_sizes(case):
-    """record sizes per control op, computed without running ioflo (for crashed children)"""
-    t, nid, out = 0, 0, []
-    for ops in case["procs"]:
-        po = []
-        for op in ops:
-            if op[0] == "tick":
-                t += op[1]
-                continue
-            szs = []
-            for _ in range(op[1]):
-                szs.append(len(rec_line(t * DT, nid, case.get("big", False))))
-                nid += 1
-            po.append(szs)
-        out.append(po)
-    return out
+    return {"files": read_files(case, prefix), "sizes": sizes_of(pl), "hsz": HSZ, "nwritten": list(spy.nw),
+            "spy": {"flushed": spy.flushed, "cycles": spy.cycles, "rot_at": spy.rot_at}}
 
 
 if __name__ == "__main__":
